@@ -761,10 +761,13 @@ spif_mbuff_trim(spif_mbuff_t self)
     spif_byteptr_t start, end;
 
     ASSERT_RVAL(!SPIF_MBUFF_ISNULL(self), FALSE);
+    if (self->buff == (spif_byteptr_t) NULL) {
+        return TRUE;
+    }
     start = self->buff;
     end = self->buff + self->len - 1;
-    for (; isspace((spif_uchar_t) (*start)) && (start < end); start++);
-    for (; isspace((spif_uchar_t) (*end)) && (start < end); end--);
+    for (; (start <= end) && isspace((spif_uchar_t) (*start)); start++);
+    for (; (start < end) && isspace((spif_uchar_t) (*end)); end--);
     if (start > end) {
         return spif_mbuff_done(self);
     }
